@@ -821,10 +821,15 @@ Definition val_units (x : val * list (option dfrom)) : bool :=
 (* delegation links: delegator side = validator side *)
 Definition dl_find (l : list (option dfrom)) (d : Z) : option dfrom :=
   fold_right (fun x acc => match x with Some e => if Z.eqb (d_addr e) d then Some e else acc | None => acc end) None l.
+Definition blob_ok (s : state) (ac : acct) : bool :=
+  match a_hash ac with [] => true | l => existsb (list_eqb Z.eqb l) (blobs s) end.
+Definition acct_readable (s : state) (ac : acct) : bool := a_loaded ac || blob_ok s ac.
 Definition acct_links (s : state) (d : Z) (ac : acct) : bool :=
-  (* every listed validator exists and has a delegation from d; the balance is
-     the sum of what d has delegated to the existing validators *)
-  forallb (fun a => match peek s a with
+  (* the list can be read; every listed validator exists and has a delegation
+     from d; the balance is the sum of what d has delegated to the existing
+     validators *)
+  acct_readable s ac
+  && forallb (fun a => match peek s a with
                     | Some (_, l) => match dl_find l d with Some _ => true | None => false end
                     | None => false end) (a_hash ac)
   && Z.eqb (a_dbal ac)
@@ -929,3 +934,11 @@ Fixpoint obs_trace (uv ua : list Z) (s : state) (l : list op) : list (list Z) :=
   | [] => []
   | o :: r => match step s o with None => [] | Some s' => obs uv ua s' :: obs_trace uv ua s' r end
   end.
+
+(* ---- Validator.Less (validator.go): the order behind the voter indexes ------- *)
+Definition u64 (x : Z) : Z := Z.abs x mod two64.        (* big.Int.Uint64() *)
+Definition vless (a b : val) : bool :=
+  if Z.eqb (u64 (v_stake a)) (u64 (v_stake b)) then
+    if Z.eqb (v_token a) (v_token b) then Z.ltb (v_addr a) (v_addr b)
+    else Z.ltb (v_token a) (v_token b)
+  else Z.ltb (u64 (v_stake a)) (u64 (v_stake b)).
